@@ -9,7 +9,9 @@
 (*    mem0   |-> initial memory,                                             *)
 (*    frames |-> sequence of client frames]                                  *)
 (* A frame is [kind, sess, ctx, wrap, route, tmo, req]:                       *)
-(*   kind \in {"register","unregister","listservices","listidentity","listinterfaces","rr","badcmd"}        *)
+(*   kind \in {"register","unregister","listservices","listidentity","listinterfaces","rr","badcmd",        *)
+(*             "fwdopen","fwdclose" (SendRRData carrying a Forward Open / Close: extra field fo, CIPWire),   *)
+(*             "unit" (SendUnitData, connected: extra fields cid (4 octets), seq)}                           *)
 (*   sess, ctx: the 4/8 octets the client puts in the header; wrap \in {"simple","ucsend"};                  *)
 (*   route: route path segments of the Unconnected Send wrapper; req: the Logix request carried by "rr".     *)
 (*                                                                         *)
@@ -23,13 +25,16 @@ EXTENDS LogixOps
 (* Frames on the wire *)
 KindCmd(k) == CASE k = "register" -> CmdRegister [] k = "unregister" -> CmdUnregister [] k = "listservices" -> CmdListServices
                 [] k = "listidentity" -> CmdListIdentity [] k = "listinterfaces" -> CmdListInterfaces
-                [] k = "rr" -> CmdSendRR [] k = "badcmd" -> 153
+                [] k \in {"rr", "fwdopen", "fwdclose"} -> CmdSendRR [] k = "unit" -> CmdSendUnit [] k = "badcmd" -> 153
 
 CipOf(C, f) == IF f.wrap = "simple" THEN EncReq(C, f.req) ELSE EncUnconnectedSend(5, 157, EncReq(C, f.req), f.route)
 
 FrameBytes(C, f) ==
   CASE f.kind = "register" -> EncEnip(CmdRegister, f.sess, 0, f.ctx, 0, RegisterPayload)
     [] f.kind = "rr" -> RRFrame(f.sess, f.ctx, f.tmo, CipOf(C, f))
+    [] f.kind = "fwdopen" -> RRFrame(f.sess, f.ctx, f.tmo, EncForwardOpen(f.fo))
+    [] f.kind = "fwdclose" -> RRFrame(f.sess, f.ctx, f.tmo, EncForwardClose(f.fo))
+    [] f.kind = "unit" -> EncEnip(CmdSendUnit, f.sess, 0, f.ctx, 0, EncSendData(f.tmo, <<ConnAddr(f.cid), ConnData(f.seq, EncReq(C, f.req))>>))
     [] OTHER -> EncEnip(KindCmd(f.kind), f.sess, 0, f.ctx, 0, <<>>)
 
 Stream(SC) == Concat([ i \in 1 .. Len(SC.frames) |-> FrameBytes(SC.cfg, SC.frames[i]) ])
@@ -59,6 +64,7 @@ Echo(f, b) == WellFramed(b) /\ HCmd(b) = KindCmd(f.kind) /\ HCtx(b) = f.ctx
 \* unconnected data item), request's session handle and context
 RRReply(f, cip) == EncEnip(CmdSendRR, f.sess, 0, f.ctx, 0, EncSendData(f.tmo, <<NullAddr, UnconnData(cip)>>))
 CipIn(b) == SubSeq(b, 41, Len(b))
+UnitReply(f, cid, cip) == EncEnip(CmdSendUnit, f.sess, 0, f.ctx, 0, EncSendData(f.tmo, <<ConnAddr(cid), ConnData(f.seq, cip)>>))
 
 \* an error frame: non-zero encapsulation status, request's command / session handle / context
 ErrFrame(f, b) == Echo(f, b) /\ HSess(b) = f.sess /\ HStat(b) # <<0, 0, 0, 0>>
@@ -81,7 +87,31 @@ ReplyOutcomes(SC, m, f, b) ==
               ELSE IF ErrFrame(f, b) /\ After(SC.cfg, m, f.req, <<>>) # {}
                    THEN { [mem |-> x, close |-> TRUE] : x \in After(SC.cfg, m, f.req, <<>>) }
                    ELSE {}
+    \* connected messaging.  Forward Open: the success reply echoes the serials, grants the requested packet intervals, and
+    \* carries the connection ids -- the originator's, except that the target picks the O->T id of a point-to-point and the
+    \* T->O id of a multicast connection (PERMISSIVE: any 4 octets there).
+    [] f.kind = "fwdopen" ->
+         LET cip == CipIn(b)
+             fo2 == [f.fo EXCEPT !.ot.id = IF f.fo.ot.type = 2 /\ Len(cip) >= 12 THEN SubSeq(cip, 5, 8) ELSE @,
+                                 !.to.id = IF f.fo.to.type = 1 /\ Len(cip) >= 12 THEN SubSeq(cip, 9, 12) ELSE @] IN
+         IF WellFramed(b) /\ HStat(b) = <<0, 0, 0, 0>> /\ Len(b) >= 40 /\ b = RRReply(f, cip)
+            /\ cip = EncForwardOpenReply(fo2, f.fo.ot.rpi, f.fo.to.rpi)
+         THEN { [mem |-> m, close |-> FALSE] } ELSE {}
+    [] f.kind = "fwdclose" ->
+         IF WellFramed(b) /\ HStat(b) = <<0, 0, 0, 0>> /\ Len(b) >= 40 /\ b = RRReply(f, EncForwardCloseReply(f.fo))
+         THEN { [mem |-> m, close |-> FALSE] } ELSE {}
+    \* SendUnitData: same command / session / context; connected address item (PERMISSIVE: any connection id -- a
+    \* controller answers with the T->O id, the simulator echoes the request's), the request's sequence count, CIP reply
+    [] f.kind = "unit" ->
+         IF WellFramed(b) /\ HStat(b) = <<0, 0, 0, 0>> /\ Len(b) >= 46 /\ b = UnitReply(f, SubSeq(b, 37, 40), SubSeq(b, 47, Len(b)))
+         THEN { [mem |-> x, close |-> FALSE] : x \in After(SC.cfg, m, f.req, SubSeq(b, 47, Len(b))) }
+         ELSE IF ErrFrame(f, b) /\ After(SC.cfg, m, f.req, <<>>) # {}
+              THEN { [mem |-> x, close |-> TRUE] : x \in After(SC.cfg, m, f.req, <<>>) }
+              ELSE {}
     [] OTHER -> {}
+
+\* the connection table: which reply opens / closes the connection with the frame's connection serial
+ConnEffect(f) == IF f.kind = "fwdopen" THEN "open" ELSE IF f.kind = "fwdclose" THEN "close" ELSE "none"
 
 \* frames that get no reply at all: Unregister (session ends) and commands outside the supported grammar (C08: close)
 Silent(f) == f.kind \in {"unregister", "badcmd"}
@@ -100,6 +130,9 @@ RepliesOf(SC, m, f) ==
     [] f.kind = "rr" /\ f.req.svc # "multi" ->
          { RRReply(f, EncOut(SC.cfg, f.req, o)) : o \in SingleOuts(SC.cfg, m, f.req) }
          \cup (IF f.req.tag = 0 THEN { EncEnip(CmdSendRR, f.sess, 8, f.ctx, 0, <<>>) } ELSE {})
+    [] f.kind = "fwdopen" -> { RRReply(f, EncForwardOpenReply(f.fo, f.fo.ot.rpi, f.fo.to.rpi)), RRReply(f, EncForwardOpenFail(f.fo, 8, <<>>)) }
+    [] f.kind = "fwdclose" -> { RRReply(f, EncForwardCloseReply(f.fo)) }
+    [] f.kind = "unit" /\ f.req.svc # "multi" -> { UnitReply(f, f.cid, EncOut(SC.cfg, f.req, o)) : o \in SingleOuts(SC.cfg, m, f.req) }
     [] OTHER -> {}
 
 \* a reply frame that acknowledges a write-class service (Write Tag [Fragmented] 0xCD/0xD3, Set Attribute Single 0x90) with
